@@ -333,7 +333,10 @@ func renderVar(b *Binding, v TVar, value string) (string, bool) {
 			if si != len(segs)-1 {
 				return "", false
 			}
-			// '**' matches zero or more segments; the value keeps '/' and %2F literally.
+			// '**': one or more segments here (the zero-segment case is ambiguous and not rendered)
+			if pi >= len(parts) {
+				return "", false
+			}
 			for ; pi < len(parts); pi++ {
 				if parts[pi] == "" {
 					return "", false // empty segments facing a wildcard are ambiguous; not generated
@@ -503,6 +506,9 @@ func fieldJSON(m protoreflect.Message, fd protoreflect.FieldDescriptor) ([]byte,
 		if isHTTPBodyMsg(fd.Message()) {
 			return sub.Get(fd.Message().Fields().ByName("data")).Bytes(),
 				sub.Get(fd.Message().Fields().ByName("content_type")).String(), nil
+		}
+		if !m.Has(fd) {
+			return nil, "application/json", nil // absent body field: empty body
 		}
 		data, err := protojson.Marshal(sub.Interface())
 		if err != nil {
